@@ -561,12 +561,12 @@ Proof.
   now rewrite after_equals_skip.
 Qed.
 
-Lemma after_equals_args args chs tl :
-  valid_args true args chs = true -> is_tail tl ->
-  after_equals (after (render_args args chs ++ tl)) = None.
+Lemma after_equals_args args chs Z :
+  valid_args true args chs = true -> after_equals (after Z) = None ->
+  after_equals (after (render_args args chs ++ Z)) = None.
 Proof.
-  destruct args as [|a args], chs as [|ch chs]; try discriminate; intros Hv Ht.
-  - now apply after_equals_tail.
+  destruct args as [|a args], chs as [|ch chs]; try discriminate; intros Hv HZ.
+  - exact HZ.
   - cbn [render_args]. rewrite <- !app_assoc. rewrite after_spaces, after_equals_skip.
     cbn [valid_args] in Hv. apply andb_true_iff in Hv as [Ha _].
     unfold valid_arg, render_arg in *. destruct (a_quoted ch); [reflexivity|].
@@ -589,7 +589,7 @@ Proof.
       rewrite args_tail by assumption. rewrite app_nil_r.
       unfold norm, lab_of. rewrite Ec. destruct (s_label i), (s_output i); reflexivity.
     + apply render_args_sep. now apply is_tail_sep.
-    + intros Ho. unfold noout in Hv. rewrite Ho in Hv. now apply after_equals_args.
+    + intros Ho. unfold noout in Hv. rewrite Ho in Hv. apply after_equals_args; [assumption|now apply after_equals_tail].
   - assert (Ha : s_args i = []).
     { pose proof Hwf as H. unfold wf in H. rewrite Ec in H. apply andb_true_iff in H as [_ H].
       destruct (s_args i); [reflexivity|discriminate]. }
